@@ -549,6 +549,7 @@ def q_c05_query_next(bodies):
         verdict = "inconclusive"
     if any(p[1] != "inconclusive" for p in problems):
         verdict = "violated"
+    problems.sort(key=lambda p: p[1] == "inconclusive")  # a confirmed problem names the check
     return dict(name=name, property="C05", verdict=verdict,
                 detail="K=0..%d rows, both directions, with/without limit, every key grouping; configurations=%d paths=%d; problems: %s" % (KMAX, ncases, npaths, problems[:4] or "none"),
                 functions=sorted(funcs) + ["redb Range::{next,next_back}, AccessGuard::value, ReadOnlyTable::get (modelled: window over K symbolic rows; stale index rows symbolic)"],
